@@ -38,12 +38,13 @@ RULE = ("one case = one dataset, evaluated under every scheme of the tier's sche
         "return_at_most_one_ranking. quick: every dataset over R(3) with 1..2 rankings (canonical names), plus 400 "
         "seeded datasets n<=5, m<=4 cycling through 6 element-name kinds (canonical, permuted ints, hash-colliding "
         "ints, strings, integer-like strings, mixed), 14 schemes (unifying x1, x2, x1/4; three schemes proportional "
-        "to unifying on B only; presets; generic / boundary schemes). thorough: R(3) m<=3, R(4) m<=2, 4000 samples "
-        "n<=6, m<=5, 27 schemes. Non-trivial = universe of >= 2 elements (at least one pair is scored); distinct = "
+        "to unifying on B only; presets; generic / boundary schemes). thorough: R(3) m<=3, R(4) m<=2 (datasets of 3 rankings and "
+        "those over 4 names under a rotating window of 9 of the 27 schemes), 4000 samples n<=6, m<=5 under all 27 "
+        "schemes. Non-trivial = universe of >= 2 elements (at least one pair is scored); distinct = "
         "distinct (dataset, scheme) pair.")
 SCOPE = {"quick": "all datasets n<=3 m<=2 (701) + 400 sampled n<=5 m<=4; 14 schemes; both flag values",
-         "thorough": "all datasets n<=3 m<=3 (18277) + n=4 m<=2 (22649) + 4000 sampled n<=6 m<=5; 27 schemes; "
-                     "both flag values"}
+         "thorough": "all datasets n<=3 m<=2 x 27 schemes; n<=3 m=3 (17.6k) and n=4 m<=2 (21.9k) x 9 rotating "
+                     "schemes; 4000 sampled n<=6 m<=5 x 27 schemes; both flag values"}
 EXHAUSTIVE = {"quick": False, "thorough": False}
 CHUNK = 4
 
@@ -51,12 +52,15 @@ CHUNK = 4
 def gen_cases(tier, seed):
     quick = tier == "quick"
     si = "quick" if quick else "all"
+    idx = 0
     for d in D.all_datasets(3, 2 if quick else 3):
-        yield {"rankings": d, "schemes": si, "namekind": "canon"}
+        yield {"rankings": d, "schemes": si if quick or len(d) < 3 else "w%d" % idx, "namekind": "canon"}
+        idx += 1
     if not quick:
         for d in D.all_datasets(4, 2):
             if 3 in D.universe_of(d):           # the others were enumerated above
-                yield {"rankings": d, "schemes": si, "namekind": "canon"}
+                yield {"rankings": d, "schemes": "w%d" % idx, "namekind": "canon"}
+                idx += 1
     rng = random.Random(seed * 104729 + 10)
     kinds = list(D.NAME_KINDS)
     count = 400 if quick else 4000
@@ -83,12 +87,21 @@ def _refusal_site(scheme):
     return "PickAPerm refusal"
 
 
+def _schemes(spec):
+    if spec == "quick":
+        return SCHEMES_QUICK
+    if spec == "all":
+        return SCHEMES_ALL
+    k = int(spec[1:])                       # "w<k>": a rotating window of 9 schemes
+    return [SCHEMES_ALL[(5 * k + j) % len(SCHEMES_ALL)] for j in range(9)]
+
+
 def check_case(case):
     from bounded import adapt as A
     from corankco.algorithms.pickaperm.pickaperm import (PickAPerm,
                                                          InompleteRankingsIncompatibleWithScoringSchemeException)
     rankings = case["rankings"]
-    schemes = SCHEMES_QUICK if case["schemes"] == "quick" else SCHEMES_ALL
+    schemes = _schemes(case["schemes"])
     exp_r, _conv = A.expected_names(rankings)
     universe = D.universe_of(exp_r)
     complete = D.is_complete(exp_r)
